@@ -13,6 +13,7 @@ import (
 	"sort"
 	"strings"
 	"testing"
+	"time"
 
 	"github.com/google/osv-scalibr/plugin"
 	"pgregory.net/rapid"
@@ -117,14 +118,23 @@ func (c c09Case) run(r c09Run) scanOut {
 	cfg.ErrorOnFSErrors = r.ErrorOnFS
 	cfg.MaxFileSize = r.MaxFileSize
 	mfs := memfs.New(c.Tree, memfs.Options{ReadDirFile: r.ReadDirFile, Faults: r.Faults})
-	return runScan(virtualRoot(mfs), cfg, c.Exts, nil)
+	// "the scan still terminates": a scan of a dozen in-memory nodes takes milliseconds; one
+	// that has not returned after 20 s is reported as non-terminating.
+	done := make(chan scanOut, 1)
+	go func() { done <- runScan(virtualRoot(mfs), cfg, c.Exts, nil) }()
+	select {
+	case out := <-done:
+		return out
+	case <-time.After(20 * time.Second):
+		return scanOut{Panic: fmt.Sprintf("the scan did not return within 20 s (%d file-system operations so far)", len(mfs.Log()))}
+	}
 }
 
 // decide checks one faulted run against the fault-free run of the same options.
 func (c c09Case) decide(r c09Run, clean scanOut) (reached bool, othersExpected bool, err error) {
 	out := c.run(r)
 	if out.Panic != nil {
-		return true, false, fmt.Errorf("scan panicked under faults %v: %v", r.Faults, out.Panic)
+		return true, false, fmt.Errorf("scan panicked or did not terminate under faults %v: %v", r.Faults, out.Panic)
 	}
 	if out.AfterScans != 1 {
 		return true, false, fmt.Errorf("scan did not complete exactly once (AfterScan fired %d times)", out.AfterScans)
@@ -341,6 +351,9 @@ func propC09(c c09Case) (ev.Outcome, error) {
 		for _, f := range r.Faults {
 			if reached {
 				classes = append(classes, "site_"+f.Site, "err_"+f.Err)
+				if f.Sticky {
+					classes = append(classes, "sticky_fault")
+				}
 			}
 		}
 		if !reached {
@@ -410,6 +423,13 @@ func propC09(c c09Case) (ev.Outcome, error) {
 							col.Excluded(c09GitignoreOpen)
 							continue
 						}
+						singles = append(singles, f)
+					}
+				}
+				// a persistently failing directory (every read from the k-th on fails) or file
+				for _, f := range append([]memfs.Fault(nil), singles...) {
+					if f.Site == "readdir" || f.Site == "read" {
+						f.Sticky = true
 						singles = append(singles, f)
 					}
 				}
